@@ -159,6 +159,7 @@ private:
   bool _subst_decl_recursive_protect;
   bool _using_search_protect;
   bool _base_search_protect;
+  bool _write_recursive_protect;
 };
 
 inline std::ostream &
